@@ -623,7 +623,89 @@ def case_charvalue(p):
     return []
 
 
-CASES = {"message": case_message, "links": case_links, "database": case_database, "charvalue": case_charvalue}
+def _scramble(obj, depth=0):
+    """Overwrite everything reachable from a decoded message in place (what an application, or the CoAP connection's raw_value updates, may do
+    with an object it was handed)."""
+    import dataclasses
+
+    if depth > 6 or not dataclasses.is_dataclass(obj) or isinstance(obj, type):
+        return
+    for f in dataclasses.fields(obj):
+        v = getattr(obj, f.name, None)
+        if isinstance(v, list):
+            for x in v:
+                _scramble(x, depth + 1)
+            try:
+                v.clear()
+            except Exception:  # noqa: BLE001
+                pass
+        else:
+            _scramble(v, depth + 1)
+        try:
+            setattr(obj, f.name, None)
+        except Exception:  # noqa: BLE001
+            pass
+
+
+def case_decode_twice(p):
+    """p: cls, tree.  Decoding is a function of the bytes: what an earlier caller did with the message it got must not show in a later decode of
+    the same bytes, nor in a sibling holding an identical nested blob."""
+    cls = _cls(p["cls"])
+    tree = p["tree"]
+    data = ts.encode(cls, tree)
+    try:
+        first = cls.decode(data)
+        snap = ts.plain(cls, first)
+    except Exception:  # noqa: BLE001
+        return []  # judged by the message family
+    _scramble(first)
+    try:
+        second = cls.decode(data)
+        got = ts.plain(cls, second)
+    except Exception as e:  # noqa: BLE001
+        return [(f"decode-after-earlier-result-was-modified-raises:{type(e).__name__}:{cls.__name__}", {"error": str(e)[:160]})]
+    if second is first:
+        return [(f"decode-returns-the-same-object-twice:{cls.__name__}", {"fields": sorted(tree)})]
+    if got != snap:
+        return [(f"decode-result-depends-on-what-was-done-with-an-earlier-result:{cls.__name__}", {"fields": sorted(tree)})]
+    return []
+
+
+def case_charvalue_history(p):
+    """p: uuid, cls, array, seq (list of tree lists), how ('set_value' | 'process_changes').  One Characteristic object over several updates, its
+    .value read after (and twice after) each: it is what was stored last, however it was stored."""
+    from aiohomekit.model import Accessories, Accessory
+
+    cls = _cls(p["cls"])
+    enc = lambda trees: base64.b64encode(ts.SEPARATOR.join(ts.encode(cls, t) for t in trees)).decode()  # noqa: E731
+    accs = Accessories()
+    acc = Accessory(1)
+    accs.add_accessory(acc)
+    serv = acc.add_service("0000FE00-0000-1000-8000-0026BB765291")
+    ch = serv.add_char(p["uuid"], value=enc(p["seq"][0]), format="tlv8", perms=["pr"])
+    for step, trees in enumerate(p["seq"]):
+        if step:
+            if p["how"] == "set_value":
+                ch.set_value(enc(trees))
+            else:
+                accs.process_changes({(1, ch.iid): {"value": enc(trees)}})
+        for again in (0, 1):
+            try:
+                val = ch.value
+                got = [ts.plain(cls, v) for v in val] if p["array"] else [ts.plain(cls, val)]
+            except Exception as e:  # noqa: BLE001
+                if step == 0:
+                    return []  # judged by the charvalue family
+                return [(f"char-value-after-update-raises:{type(e).__name__}:{cls.__name__}", {"step": step, "how": p["how"], "error": str(e)[:160]})]
+            if got != trees:
+                if step == 0:
+                    return []
+                stale = got == p["seq"][step - 1]
+                return [(f"char-value-{'stale' if stale else 'wrong'}-after-update:{cls.__name__}", {"step": step, "how": p["how"], "read": again + 1, "items_want": len(trees), "items_got": len(got)})]
+    return []
+
+
+CASES = {"message": case_message, "links": case_links, "database": case_database, "charvalue": case_charvalue, "decode_twice": case_decode_twice, "charvalue_history": case_charvalue_history}
 
 
 # ---------------------------------------------------------------- work
@@ -650,6 +732,11 @@ def _work(item, seed, tier):
                      sample={"case": "message", "params": {"cls": cid, "tree": {k: _short(v) for k, v in tree.items()}}}, symbols=syms)
             for sig, detail in viol:
                 acc.violation(sig, "message", p, detail)
+            if tree:
+                v2 = case_decode_twice(p)
+                acc.extra["decode_twice_checked"] += 1
+                for sig, detail in v2:
+                    acc.violation(sig, "decode_twice", p, detail)
     elif family == "links":
         _, cid, field, context, idlists = item
         for ids in idlists:
@@ -673,6 +760,17 @@ def _work(item, seed, tier):
                      sample={"case": "charvalue", "params": {"uuid": p["uuid"], "cls": p["cls"], "items": len(p["trees"])}}, symbols=["family:charvalue", f"charvalue:{'array' if p['array'] else 'single'}", f"type:{p['cls'].split(':')[-1]}"])
             for sig, detail in viol:
                 acc.violation(sig, "charvalue", p, detail)
+        # histories on one Characteristic object: each case's value followed by its successor's (and back), stored both ways
+        cases = item[1]
+        for a, b in zip(cases, cases[1:]):
+            if a["uuid"] != b["uuid"] or a["trees"] == b["trees"]:
+                continue
+            for how in ("set_value", "process_changes"):
+                q = {"uuid": a["uuid"], "cls": a["cls"], "array": a["array"], "seq": [a["trees"], b["trees"], a["trees"]], "how": how}
+                viol = case_charvalue_history(q)
+                acc.extra["charvalue_histories"] += 1
+                for sig, detail in viol:
+                    acc.violation(sig, "charvalue_history", q, detail)
     else:
         raise core.HarnessError(f"unknown family {family}")
     return acc
@@ -796,3 +894,4 @@ def run(ctx):
         ctx.require(sy[f"database:{v}"] == 27, f"database variant {v} incomplete")
     ctx.require(sy["charvalue:array"] > 0 and sy["charvalue:single"] > 0, "struct-valued characteristic access not exercised")
     ctx.require(len(ctx.acc.outcomes) >= 8, "fewer than 8 distinct outcomes")
+    ctx.require(ctx.acc.extra["decode_twice_checked"] > 1000 and ctx.acc.extra["charvalue_histories"] > 100, "decode-twice / characteristic histories not exercised")
